@@ -8,6 +8,15 @@ NA_ALL = {
  'C15': 'Circuit shape / pinned Groth16 keys: needs Groth16 proving and pairing evaluation on concrete keys (whole-program runs through ark-groth16, no symbolic content) and a dataflow statement about arkworks\' synthesiser; no solver verdict over the real code is within reach (DESIGN §4).',
 }
 CHECKS = {
+ 'C03': dict(level='proof', technique='symbolic execution of the MIR (POLY domain): encode == specification encoder by z3 polynomial identities; representation independence by z3-checked cofactor certificates',
+      text='vartime_compress_to_field of both builds is executed on the MIR with symbolic (X,Y,Z,T) and shown identical to the specification encoder on every sign/squareness path; invariance under projective rescaling, under the coset shift (-X,-Y,Z,T) and on both identity representatives is shown by running the code twice and proving the two results equal (identities, or ideal-membership certificates checked by z3 on paths with zero hypotheses).',
+      note='Trusted: MIR semantics as modelled, contract S (C09) plus the derived scaling lemma, arkworks where delegated; injectivity is the Decaf theorem (not decided).', ref='§3 C03'),
+ 'C04': dict(level='proof', technique='symbolic execution of the MIR over the free abelian group (z3 LIA+EUF) for every operator form; cofactor certificates (z3-checked) for the hand-written extended-coordinate formulas',
+      text='All operator impls found in the MIR of the ops files (56 arkworks-build forms, 21 minimal-build forms), the four Sum impls, negate, double_in_place, zero/default and the affine/projective conversions are executed with symbolic operands interpreted in the free abelian group and compared by z3 with lhs+rhs / lhs-rhs / -x / k*P; the minimal backend Add, double and Neg are compared with the affine Edwards law as polynomial certificates modulo T*Z = X*Y and the curve equation.',
+      note='Trusted: ark-ec point arithmetic for the inner points, abelian group axioms (association/order), MIR semantics as modelled.', ref='§3 C04'),
+ 'C07': dict(level='proof', technique='symbolic execution of the MIR (POLY domain) against the specification Elligator map; z3 polynomial identities',
+      text='elligator_map of both builds is executed on the MIR for symbolic r0 and all four output coordinates are shown identical to the specification map on every path (square / non-square branch, sign fix); the same run with -r0 gives identical coordinates.',
+      note='Trusted: contract S (C09), MIR semantics as modelled; equivalence optimised/unoptimised map and validity of the image are specification-level theorems.', ref='§3 C07'),
  'C02': dict(level='proof', technique='symbolic execution of the MIR (POLY domain) against the specification decoder; polynomial identities by z3, on-curve assertion by z3-checked cofactor certificates',
       text='Every path of vartime_decompress (both builds) is executed symbolically on the compiler MIR with all 32 bytes symbolic; verdict and the four coordinates are shown identical to the specification decoder by z3 (identities over Z with coefficients reduced mod q), the on-curve assertion of the constructor is discharged by a cofactor certificate checked by z3.',
       note='Trusted: MIR semantics as modelled, arkworks where /repo delegates, contracts S (sqrt, C09) and W (wrappers, C10/C11) which are separate obligations; Decaf theory is not needed for this property.', ref='§3 C02'),
